@@ -1345,7 +1345,8 @@ impl<'a> AstResolver<'a> {
                 ast::Type::Ident(id) => {
                     let (item, _) = state.local_item(id)?;
                     match item.kind(&state.graph) {
-                        ItemKind::Type(Type::Resource(id)) => {
+                        // A resource can only be aliased inside an interface or world
+                        ItemKind::Type(Type::Resource(id)) if register_name => {
                             let owner = state.graph.types()[id].alias.and_then(|a| a.owner);
                             Type::Resource(state.graph.types_mut().add_resource(Resource {
                                 name: alias.id.string.to_owned(),
